@@ -13,16 +13,114 @@ open Spec
 
 /-! ### routes of a VirtualServer -/
 
+/-- Keep the first occurrence of every key. -/
+def firstByKey : List Meta → List Meta :=
+  List.foldl (fun acc m => if acc.any (fun a => a.key = m.key) then acc else acc ++ [m]) []
+
+private theorem vsrFold_fst (vsrs : Map VSR) (v : VS) (rs : List (String × String)) (acc : List Meta × List String) :
+    (rs.foldl (vsrStep vsrs v) acc).1 =
+      (rs.filterMap (routeOf vsrs v)).foldl (fun acc m => if acc.any (fun a => a.key = m.key) then acc else acc ++ [m]) acc.1 := by
+  induction rs generalizing acc with
+  | nil => rfl
+  | cons pr rs ih =>
+    simp only [List.foldl_cons, List.filterMap_cons]
+    rw [ih]
+    unfold vsrStep
+    cases hr : routeOf vsrs v pr with
+    | some m =>
+      simp only [List.foldl_cons]
+      by_cases hd : acc.1.any (fun a => a.key = m.key) = true
+      · simp [hd]
+      · simp [hd]
+    | none =>
+      cases routeWarnOf vsrs v pr <;> rfl
+
 /-- **A VirtualServer is rendered with exactly the VirtualServerRoutes it references that exist,
 whose host equals its own and whose subroutes obey the path rule of the referencing route** —
-in the order of the `route` entries; a bare name is resolved in the VirtualServer's namespace. -/
+in the order of the `route` entries, each route once (at its first fitting reference); a bare name
+is resolved in the VirtualServer's namespace. -/
 theorem vsrs_eq_spec (vsrs : Map VSR) (v : VS) :
-    (buildVsrs vsrs v).1 = v.routes.filterMap (routeOf vsrs v) ∧
+    (buildVsrs vsrs v).1 = firstByKey (v.routes.filterMap (routeOf vsrs v)) ∧
     ∀ pr, routeOf vsrs v pr =
       if pr.2 = "" then none else
       match vsrs.get? (if pr.2.contains '/' then pr.2 else v.md.ns ++ "/" ++ pr.2) with
       | some r => if vsrFits r v.host pr.1 then some r.md else none
-      | none => none := ⟨rfl, fun _ => rfl⟩
+      | none => none := ⟨vsrFold_fst vsrs v v.routes ([], []), fun _ => rfl⟩
+
+private theorem firstFold_mem (l : List Meta) (acc : List Meta) (m : Meta)
+    (h : m ∈ l.foldl (fun acc m => if acc.any (fun a => a.key = m.key) then acc else acc ++ [m]) acc) : m ∈ acc ∨ m ∈ l := by
+  induction l generalizing acc with
+  | nil => exact Or.inl h
+  | cons x xs ih =>
+    simp only [List.foldl_cons] at h
+    rcases ih _ h with h1 | h1
+    · split at h1
+      · exact Or.inl h1
+      · rcases List.mem_append.mp h1 with h2 | h2
+        · exact Or.inl h2
+        · exact Or.inr (by simp at h2; simp [h2])
+    · exact Or.inr (List.mem_cons_of_mem _ h1)
+
+private theorem firstFold_keys_nodup (l : List Meta) (acc : List Meta) (h : (acc.map Meta.key).Nodup) :
+    ((l.foldl (fun acc m => if acc.any (fun a => a.key = m.key) then acc else acc ++ [m]) acc).map Meta.key).Nodup := by
+  induction l generalizing acc with
+  | nil => exact h
+  | cons x xs ih =>
+    simp only [List.foldl_cons]
+    apply ih
+    split
+    · exact h
+    · rename_i hn
+      rw [List.map_append, List.nodup_append]
+      refine ⟨h, by simp, ?_⟩
+      intro a ha b hb
+      simp at hb
+      subst hb
+      intro heq
+      apply hn
+      rw [List.any_eq_true]
+      obtain ⟨y, hy, hk⟩ := List.mem_map.mp ha
+      exact ⟨y, hy, by simp [hk, heq]⟩
+
+/-- **No VirtualServerRoute is attached twice** (S-C07-i: attached twice, its upstreams and locations were generated twice and
+NGINX refused the file) — for every VirtualServer and every set of routes. -/
+theorem attached_routes_distinct (vsrs : Map VSR) (v : VS) : ((buildVsrs vsrs v).1.map Meta.key).Nodup := by
+  rw [(vsrs_eq_spec vsrs v).1]
+  exact firstFold_keys_nodup _ [] (by simp)
+
+/-- …and every route that fits some reference is attached: de-duplication drops repetitions only. -/
+theorem fitting_route_attached (vsrs : Map VSR) (v : VS) (pr : String × String) (m : Meta)
+    (hpr : pr ∈ v.routes) (hm : routeOf vsrs v pr = some m) : ∃ a ∈ (buildVsrs vsrs v).1, a.key = m.key := by
+  rw [(vsrs_eq_spec vsrs v).1]
+  have hin : m ∈ v.routes.filterMap (routeOf vsrs v) := List.mem_filterMap.mpr ⟨pr, hpr, hm⟩
+  have gen : ∀ (l acc : List Meta), (m ∈ l ∨ ∃ a ∈ acc, a.key = m.key) →
+      ∃ a ∈ l.foldl (fun acc m => if acc.any (fun a => a.key = m.key) then acc else acc ++ [m]) acc, a.key = m.key := by
+    intro l
+    induction l with
+    | nil =>
+      intro acc h
+      rcases h with h | h
+      · cases h
+      · simpa using h
+    | cons x xs ih =>
+      intro acc h
+      simp only [List.foldl_cons]
+      apply ih
+      rcases h with h | ⟨a, ha, hk⟩
+      · rcases List.mem_cons.mp h with rfl | h'
+        · right
+          by_cases hd : acc.any (fun a => a.key = m.key) = true
+          · simp only [hd, if_true]
+            obtain ⟨a, ha, hk⟩ := List.any_eq_true.mp hd
+            exact ⟨a, ha, by simpa using hk⟩
+          · simp only [hd]
+            exact ⟨m, by simp, rfl⟩
+        · exact Or.inl h'
+      · right
+        split
+        · exact ⟨a, ha, hk⟩
+        · exact ⟨a, List.mem_append_left _ ha, hk⟩
+  exact gen _ [] (Or.inl hin)
 
 /-- Every `route` entry that does not attach produces a warning, and vice versa. -/
 theorem route_attached_or_warned (vsrs : Map VSR) (v : VS) (pr : String × String) (h : pr.2 ≠ "") :
@@ -40,7 +138,8 @@ theorem attached_route_fits (vsrs : Map VSR) (v : VS) (m : Meta) (h : m ∈ (bui
     ∃ path ref r, (path, ref) ∈ v.routes ∧ ref ≠ "" ∧
       vsrs.get? (vsrKeyOf v ref) = some r ∧ r.md = m ∧ r.host = v.host ∧
       (if isRegexOrExact path then r.subs = [path] else ∀ p ∈ r.subs, p.startsWith path = true) := by
-  unfold buildVsrs at h
+  rw [(vsrs_eq_spec vsrs v).1] at h
+  have h := (firstFold_mem _ [] m h).resolve_left (by simp)
   obtain ⟨⟨path, ref⟩, hm, he⟩ := List.mem_filterMap.mp h
   unfold routeOf at he
   by_cases h1 : ref = ""
@@ -154,6 +253,10 @@ private def r2 : VSR := { md := mR2, host := "a.ex", subs := ["=/e"] }
 private def rs : Map VSR := [("d/r1", r1), ("e/r2", r2)]
 
 example : routeOf rs vX ("", "") = none := rfl
-example : ∃ m ∈ (buildVsrs rs vX).1, m = mR1 := ⟨mR1, by simp [buildVsrs, routeOf, vX, rs, r1, r2, vsrKeyOf, Map.get?, vsrFits, isRegexOrExact, mV, mR1], rfl⟩
+-- a route referenced twice (by name and by namespace/name) is attached once, with a warning
+example : (buildVsrs rs { vX with routes := [("/r", "r1"), ("/", "d/r1")] }).1.length = 1 ∧
+    (buildVsrs rs { vX with routes := [("/r", "r1"), ("/", "d/r1")] }).2 = [wVsrDuplicate "d/r1"] := by
+  simp [buildVsrs, vsrStep, routeOf, routeWarnOf, vX, rs, r1, r2, vsrKeyOf, Map.get?, vsrFits, isRegexOrExact, mV, mR1, mR2, Meta.key, wVsrDuplicate]
+example : ∃ m ∈ (buildVsrs rs vX).1, m = mR1 := ⟨mR1, by rw [(vsrs_eq_spec rs vX).1]; simp [firstByKey, routeOf, vX, rs, r1, r2, vsrKeyOf, Map.get?, vsrFits, isRegexOrExact, mV, mR1, mR2, Meta.key], rfl⟩
 
 end Nic.Arb
